@@ -48,7 +48,7 @@ def bound(a):
     t = a[0]
     if t == 'i':
         return a[1]
-    return {'none': None, 'bool': True, 'float': 1.5, 'str': '1', 'neg': -1, 'boolf': False, 'float0': 0.0, 'float1': 1.0}[t]
+    return {'none': None, 'bool': True, 'float': 1.5, 'str': '1', 'neg': -1, 'boolf': False, 'float0': 0.0, 'float1': 1.0, 'float2': 2.0, 'float10': 10.0}[t]
 
 
 def name(a):
